@@ -46,6 +46,10 @@ func init() {
 		Families: func(c *mon.Config) []mon.Family {
 			return []mon.Family{
 				{Name: "cold-start", N: 1, Serial: true, Run: func(w *mon.W, _ int) {
+					if !coldFirst(w, coldPick(coldRankSelect(), "Rank64", "Rank128", "IndexRank64", "IndexRank128")) {
+						return
+					}
+					defer coldLast(w, coldPick(coldRankSelect(), "Rank64", "Rank128", "IndexRank64", "IndexRank128"))
 					for _, b := range [][]uint64{nil, {}, {^uint64(0)}, {0}, {^uint64(0), ^uint64(0)}, {0, 0}, {1 << 63}} {
 						if !c01Check(w, b) {
 							return
@@ -57,7 +61,7 @@ func init() {
 				{Name: "byte-lanes", N: 8 * 3, Run: c01Lanes},
 				{Name: "zoo", Env: 8, N: c.Pick(60000, 6000000), Run: c01Zoo},
 				{Name: "zoo-long", Env: 4, N: c.Pick(1000, 200000), Run: c01ZooLong},
-				{Name: "dense-long", Env: 2, N: c.Pick(8, 400), Run: c01DenseLong},
+				{Name: "dense-long", Env: 4, N: c.Pick(8, 400), Run: c01DenseLong},
 			}
 		},
 	})
@@ -177,6 +181,10 @@ func c01Check(w *mon.W, words []uint64) bool {
 		rF := bitmap.IndexRank64(words, false)
 		r64 := bitmap.IndexRank64(words)
 		w.Eval(4)
+		if len(rT) != nw+1 || len(rF) != nw || len(r64) != nw || len(r128) != nw/2+1 {
+			w.Fail("Index/shape", d(mon.D{"what": "indexes built for the updated bitmap", "len_idx64": len(r64), "len_idx64_trailing": len(rT), "len_idx128": len(r128)}))
+			return false
+		}
 		var c int32
 		for i := 0; i <= nw; i++ {
 			bad := rT[i] != c || (i < nw && (rF[i] != c || r64[i] != c)) || (i&1 == 0 && i/2 < len(r128) && r128[i/2] != c)
